@@ -467,9 +467,29 @@ func propC14(r *Run, w *World) {
 				}
 			}
 		}
+		// the syscall-class counter is the local the Visit closure sets in the arm of -S (the
+		// order of the operands in the sum and the names of the locals are incidental)
 		var sysTerm string
-		if i := strings.LastIndex(sum, " + "); i >= 0 {
-			sysTerm = strings.TrimSuffix(sum[i+3:], ")")
+		if len(validate.AnonFuncs) == 1 {
+			visit := validate.AnonFuncs[0]
+			for _, arm := range switchArms(visit) {
+				if arm.Subject == "p0.Name" && constKey(arm.Const) == "S" {
+					eff, _ := armEffect(arm.Arm, arm.If.Block())
+					var k int
+					if _, err := fmt.Sscanf(eff, "store fv%d = 1", &k); err == nil {
+						for _, c := range callsNamedIn(validate, "(*flag.FlagSet).Visit") {
+							if mc, ok := c.Common().Args[1].(*ssa.MakeClosure); ok && k < len(mc.Bindings) {
+								sysTerm = strings.TrimPrefix(Term(mc.Bindings[k]), "&")
+							}
+						}
+					}
+				}
+			}
+		}
+		if sysTerm == "" {
+			if i := strings.LastIndex(sum, " + "); i >= 0 {
+				sysTerm = strings.TrimSuffix(sum[i+3:], ")")
+			}
 		}
 		for i, p := range ps {
 			ret := p.Ret()
